@@ -37,7 +37,7 @@ KINDS = ["forcing_starts_late", "forcing_ends_early", "frames_out_of_order", "fr
          "direction_flag_wrong", "release_all_before", "release_all_at_or_after_stop", "release_without_position",
          "release_file_missing", "config_file_missing", "section_missing", "subgrid_illegal", "bad_period",
          "frames_unsorted_in_file", "frame_time_repeated_in_file"]
-REQUIRED_PROBES = ["applied:" + k for k in KINDS] + ["control_started", "combination"]
+REQUIRED_PROBES = ["applied:" + k for k in KINDS] + ["control_started", "combination", "ends_inside_fraction"]
 
 PROFILE = gen.profile(
     nsteps=(2, 24), p_reversed=0.35, p_land=0.3, p_subgrid=0.3, rows=(1, 6), p_late_rows=0.6, p_rows_outside=0.3,
@@ -62,6 +62,9 @@ def generate(seed: int, tier: str, idx: int) -> dict:
             kinds = s.sample(KINDS, s.randint(2, 3))
         else:
             kinds = [s.pick(KINDS)]
+    if "forcing_ends_early" in kinds and s.chance(0.5):
+        # a base in which the forcing can end exactly at the last whole step before an off-grid stop time
+        sc = gen.gen_scenario(seed, dict(PROFILE, p_stop_extra=1.0, p_spacing_one=1.0, p_irregular=0.0, p_reversed=0.0))
     faults = []
     for k in kinds:
         f = {"kind": k, "r": round(s.random(), 4)}
@@ -109,6 +112,7 @@ class Applied:
         self.no_config = False
         self.dup_frames = None
         self.inner = None
+        self.notes: list[str] = []
 
 
 def window(sc):
@@ -139,10 +143,16 @@ def apply_faults(sc):
             # remove every frame at or beyond the calendar end of what the model needs
             # (forward: the last simulated time; reversed: the start time)
             top = 0 if T.get("reversed") else T["nsteps"]
+            if not T.get("reversed") and T.get("stop_extra") and T["nsteps"] in offs and f["r"] < 0.6:
+                # the forcing ends at the last whole step, inside the left-over fraction before the stop time:
+                # the window [start, stop] is still not covered
+                top = T["nsteps"] + 1
+                ap.notes.append("ends_inside_fraction")
             keep = [i for i, o in enumerate(offs) if o < top]
             if len(keep) >= 1 and len(keep) < len(offs):
                 _keep_frames(s2, keep)
                 assert s2["frames"]["offsets"][-1] < top        # effect proof
+                assert truth.frame_times(s2)[-1] < max(truth.t_start(s2), truth.t_stop(s2))
                 ap.kinds.append(k)
         elif k == "frames_out_of_order":
             names = world.forcing_file_names(s2)
@@ -334,6 +344,8 @@ def execute(sc) -> Result:
         res.probes["applied:" + k] += 1
     if len(ap.kinds) > 1:
         res.probes["combination"] += 1
+    for n_ in ap.notes:
+        res.probes[n_] += 1
     if not ap.kinds:
         return res
     res.nontrivial = True
